@@ -23,10 +23,10 @@ def strategy():
     from hypothesis import strategies as st
     # half of the configurations only use names that are offered to the function (high acceptance), the other half also draw
     # parameters nothing outside offers - e.g. an optional parameter whose name a middleware further *inside* provides
-    cfg = st.one_of(G.config(max_levels=1, free_p=0.0, posonly=False, nonreorderable=True, max_mws=5, all_kinds=False, renderless_ctx=True),
-                    G.config(max_levels=3, free_p=0.0, posonly=False, nonreorderable=True, max_mws=6, all_kinds=False, renderless_ctx=True),
-                    G.config(max_levels=1, free_p=0.08, posonly=False, nonreorderable=True, max_mws=5, all_kinds=False, renderless_ctx=True),
-                    G.config(max_levels=3, free_p=0.08, posonly=False, nonreorderable=True, max_mws=6, all_kinds=False, renderless_ctx=True))
+    cfg = st.one_of(G.config(max_levels=1, free_p=0.0, posonly=False, nonreorderable=True, max_mws=5, all_kinds=False, renderless_ctx=True, route_dups=True),
+                    G.config(max_levels=3, free_p=0.0, posonly=False, nonreorderable=True, max_mws=6, all_kinds=False, renderless_ctx=True, route_dups=True),
+                    G.config(max_levels=1, free_p=0.08, posonly=False, nonreorderable=True, max_mws=5, all_kinds=False, renderless_ctx=True, route_dups=True),
+                    G.config(max_levels=3, free_p=0.08, posonly=False, nonreorderable=True, max_mws=6, all_kinds=False, renderless_ctx=True, route_dups=True))
     sib_mw = st.fixed_dictionaries({'tid': st.integers(0, 5), 'style': st.sampled_from(['func', 'method']),
                                     'request': st.sampled_from([[], None]), 'endpoint': st.sampled_from([None, []]), 'render': st.just(None)}
                                    ).map(lambda m: dict(m, unique=m['tid'] < 4, reorderable=True, provides=[], endpoint_provides=[], render_provides=[]))
@@ -35,6 +35,20 @@ def strategy():
     return st.tuples(cfg, st.integers(0, 40), st.sampled_from(MW_DEV), st.sampled_from(['route', 'route', 'null']),
                      st.sampled_from(['inner', 'inner', 'any', 'none']), st.sampled_from(['response', 'response', 'base', 'http']),
                      st.lists(sib, max_size=2))
+
+
+def _also_rejected_otherwise(cfg, exc):
+    """the configuration has a second, independent defect (seen once the duplicate is treated as reorderable) whose documented
+    exception is the one that was raised"""
+    import copy
+    c2 = copy.deepcopy(cfg)
+    for m in I.all_mws(c2):
+        m['reorderable'] = True
+    try:
+        I.predict(c2)
+    except I.Reject as r2:
+        return isinstance(exc, I.EXC_FOR.get(r2.kind, ()) + ((RuntimeError,) if getattr(r2, 'cyclic', False) else ()))
+    return False
 
 
 def compare(ctx, w, r, ev, outcome, rc, what):
@@ -107,6 +121,9 @@ def body(case, ctx):
         if exc is None:
             ctx.mismatch('accepted-' + rej.kind, 'model rejects (%s), clastic constructed' % rej, rc)
         elif not isinstance(exc, I.EXC_FOR[rej.kind] + ((RuntimeError,) if getattr(rej, 'cyclic', False) else ())):
+            if rej.kind == 'dup-nonreorderable' and _also_rejected_otherwise(cfg, exc):
+                ctx.event('two-independent-defects')      # which of the two is reported first is not stated
+                return
             ctx.mismatch('wrong-exception-' + rej.kind, 'model rejects (%s), clastic raised %r' % (rej, exc), rc)
         elif rej.kind == 'dup-nonreorderable':
             ctx.nt(['reject', cfg], sample=False)
